@@ -257,6 +257,10 @@ class _Marshaller:
         self._write(TYPE_UNICODE)
         if not PYTHON3 and self.python_version < (3, 0):
             s = x.encode("utf8")
+        elif PYTHON3:
+            # The length is that of the UTF-8 encoding, and lone surrogates
+            # are allowed, as in marshal.c
+            s = x.encode("utf-8", "surrogatepass")
         else:
             s = x
         self.w_long(len(s))
